@@ -108,7 +108,7 @@ def sig_info(code):
     return offs, sorted(set(targets))
 
 
-def build_loader(accs, name, org, dest, length, stack, rng, delay_a=None, delay_b=None, npilot=8, span=120, nblocks=1):
+def build_loader(accs, name, org, dest, length, stack, rng, delay_a=None, delay_b=None, npilot=8, span=120, nblocks=1, startup=None):
     """Machine code of a turbo loader whose edge detector is the loop shape `name`:
 
         start:  DI; LD SP,stack; (alt regs) HL'=dest DE'=length C'=1; EAR/mask registers
@@ -143,6 +143,17 @@ def build_loader(accs, name, org, dest, length, stack, rng, delay_a=None, delay_
     A = Asm(org)
     A.label('start')
     A.b(0xF3, 0x31, stack % 256, stack // 256)
+    if startup:
+        # one-off delay before listening (the pilot tone is still running): DEC A loops entered with the
+        # boundary values of A (0 counts as 256 iterations)
+        for n_, (kind_, k_) in enumerate(startup):
+            A.b(0x3E, k_)
+            A.label('su%d' % n_)
+            if kind_ == 'jr':
+                A.b(0x3D, 0x20, 0xFD)
+            else:
+                A.b(0x3D)
+                A.jp(0xC2, 'su%d' % n_)
     A.b(0xD9, 0x21, dest % 256, dest // 256, 0x11, length % 256, length // 256, 0x0E, 0x01, 0xD9)
     if typeB:
         if name.startswith('audiogenic'):
@@ -530,7 +541,12 @@ def custom_tape(run, rng, accs, name, span, nblocks, gap_ms):
     datas = [bytes(rng.choice((0x00, 0xFF, 0x80, 0x01, rng.randrange(256))) for _ in range(length)) for _ in range(nblocks)]
     delay_a = rng.choice((None, ('jr', rng.randrange(1, 7)), ('jp', rng.randrange(1, 7))))
     delay_b = rng.choice((None, ('jr', rng.randrange(1, 7)), ('jp', rng.randrange(1, 7))))
-    code, info = build_loader(accs, name, org, dest, length, 0xBFF0, rng, delay_a=delay_a, delay_b=delay_b, span=span, nblocks=nblocks)
+    startup = [(rng.choice(('jr', 'jp')), rng.choice((0, 0, 1, 2, 0x80, 0xFF))) for _ in range(rng.choice((0, 1, 2, 2)))]
+    if not any(k == 'jp' and v == 0 for k, v in startup) and rng.randrange(2):
+        startup.append(('jp', 0))
+    if not any(k == 'jr' and v == 0 for k, v in startup) and rng.randrange(2):
+        startup.append(('jr', 0))
+    code, info = build_loader(accs, name, org, dest, length, 0xBFF0, rng, delay_a=delay_a, delay_b=delay_b, span=span, nblocks=nblocks, startup=startup)
     binf = run.path('l.bin')
     with open(binf, 'wb') as f:
         f.write(bytes(code))
@@ -539,7 +555,7 @@ def custom_tape(run, rng, accs, name, span, nblocks, gap_ms):
     with open(tapf, 'rb') as f:
         std = [tzx_std(b) for b in tap_blocks(f.read())]
     return dict(org=org, dest=dest, length=length, datas=datas, info=info, std=std, done=info['labels']['done'], failflag=info['labels']['failflag'],
-                delays=(delay_a, delay_b), gap_ms=gap_ms)
+                delays=(delay_a, delay_b, tuple(startup)), gap_ms=gap_ms)
 
 
 def custom_loaders(chk, run):
